@@ -13,6 +13,7 @@
    definition; props/C17.py maps codes to known-finding keys). *)
 From Verif.Lib Require Import GoSem Bits.
 From Verif.Model Require Export Buffered Sweep.
+From Verif.Model Require Import Trie Keyspace.
 Local Open Scope N_scope.
 
 Fixpoint list_eqb {A} (eq : A -> A -> bool) (a b : list A) : bool :=
@@ -120,17 +121,47 @@ Definition trace_verdict (p : params) (tr : trace) (panicked : bool) : nat :=
   | c => (20 + c)%nat
   end.
 
+(* ================= CSched: schedule arithmetic and schedule trie ============================ *)
+Fixpoint ins_bits (x : bits * N) (l : list (bits * N)) : list (bits * N) :=
+  match l with
+  | [] => [x]
+  | y :: l' => if bits_ltb (fst x) (fst y) then x :: l else y :: ins_bits x l'
+  end.
+Definition sort_entries_b (l : list (bits * N)) : list (bits * N) := fold_right ins_bits [] l.
+
+Definition sched_run (I : N) (order : bits) (adds : list bits) : res (trie N) :=
+  fold_left (fun acc p => t <- acc ;; sched_add t p (reprovide_time I order p)) adds (Ok E).
+
+Definition entry_eqb (a b : bits * N) : bool := bits_eqb (fst a) (fst b) && N.eqb (snd a) (snd b).
+
+Definition sched_verdict (I : N) (order : bits) (times : list (bits * N)) (tbs : list (N * N * N))
+           (adds : list bits) (ents : list (bits * N)) (panicked : bool) : nat :=
+  if panicked then 3%nat else
+  let t_ok := forallb (fun x => N.eqb (reprovide_time I order (fst x)) (snd x)) times in
+  (* the offsets lie inside the cycle *)
+  let r_ok := forallb (fun x => N.ltb (snd x) I) times in
+  let b_ok := forallb (fun x => match x with (f, t, v) => N.eqb (time_between I f t) v && N.leb 1 v && N.leb v I end) tbs in
+  let s_ok := match sched_run I order adds with
+              | Ok t => list_eqb entry_eqb (sort_entries_b (entries t)) (sort_entries_b ents)
+              | _ => false
+              end in
+  if t_ok && r_ok && b_ok && s_ok then 0%nat
+  else if negb (t_ok && r_ok) then 31%nat else if negb b_ok then 32%nat else 33%nat.
+
 (* ================= the case type =========================================================== *)
 Inductive case :=
 | CBuf (batch_size : nat) (ks0 : list N) (segs : list bseg) (impl : list icall) (panicked : bool)
 | CBufReal (batch_size : nat) (ks0 : list N) (segs : list bseg) (advertised kept : list N) (panicked : bool)
-| CTrace (p : params) (tr : trace) (panicked : bool).
+| CTrace (p : params) (tr : trace) (panicked : bool)
+| CSched (I : N) (order : bits) (times : list (bits * N)) (tbs : list (N * N * N))
+         (adds : list bits) (ents : list (bits * N)) (panicked : bool).
 
 Definition verdict (c : case) : nat :=
   match c with
   | CBuf n ks0 segs impl p => buf_verdict n ks0 segs impl p
   | CBufReal n ks0 segs adv kept p => bufreal_verdict n ks0 segs adv kept p
   | CTrace p tr panicked => trace_verdict p tr panicked
+  | CSched iv order times tbs adds ents p => sched_verdict iv order times tbs adds ents p
   end.
 
 Fixpoint verdicts_from (i : nat) (cs : list case) : list (nat * nat) :=
